@@ -422,6 +422,22 @@ func c04Run(c *fw.Ctx, b fw.Batch) {
 					}
 				}
 			}
+			// (1b) the reader path with limits just above 1 MiB: bytes beyond the limit never change the answer
+			for _, L := range []int{1<<20 + 1, 1<<20 + 4097, 3<<19 + 5} {
+				head := bytes.Repeat([]byte("a line of text\n"), L/15+1)[:L]
+				for ti, tail := range [][]byte{bytes.Repeat([]byte{0x00, 0x01}, 700000), bytes.Repeat([]byte("more text\n"), 150000), {}} {
+					x := append(append([]byte{}, head...), tail...)
+					want := leafOf(lib.Detect(head, uint32(L)))
+					mimetype.SetLimit(uint32(L))
+					m, derr := mimetype.DetectReader(bytes.NewReader(x))
+					m2, _ := mimetype.DetectReader(&oddChunks{b: x})
+					c.Eval(2)
+					c.Count("reader_detections_with_limits_above_1_MiB", 1)
+					if derr != nil || leafOf(m) != want || leafOf(m2) != want {
+						c.Violate("depends-on-bytes-beyond-limit", fw.InputKey(x[:64], uint32(L), fmt.Sprintf("DetectReader/tail-%d", ti)), fmt.Sprintf("with limit %d the first %d bytes give %s through Detect; DetectReader on the same bytes followed by %d more gives %s / %s (%v)", L, L, want, len(tail), leafOf(m), leafOf(m2), derr), c04Payload{Kind: "gomaxprocs", Probe: c04Probe{Name: "reader-tail", Limit: uint32(L)}})
+					}
+				}
+			}
 			// (2) the answer does not depend on GOMAXPROCS: inputs of 1 MiB and more whose deciding
 			// byte is among the last ones
 			old := runtime.GOMAXPROCS(0)
